@@ -110,7 +110,8 @@ def _seeded(args) -> dict:
     rep = Report(pid, "selftest")
     try:
         ctx = Context(tier="quick", overlay=overlay)
-        mod.run(ctx, rep)
+        from sa.report import run_rules
+        run_rules(mod, ctx, rep, pid)
         known = {f["key"] for f in load_known().get("findings", [])}
         vs = [v for v in rep.violations if v.key(pid) not in known]
         res["reported"] = [f"{v.rule} {v.loc} {v.where}" for v in vs][:4]
@@ -136,7 +137,8 @@ def _benign(args) -> dict:
     rep = Report(pid, "selftest")
     try:
         ctx = Context(tier="quick", overlay=overlay)
-        mod.run(ctx, rep)
+        from sa.report import run_rules
+        run_rules(mod, ctx, rep, pid)
         if rep.unmet_floors() and not rep.violations:
             raise AnalysisError("; ".join(rep.unmet_floors()))
         known = {f["key"] for f in load_known().get("findings", [])}
@@ -164,7 +166,8 @@ def _one(args) -> dict:
     rep = Report(pid, "selftest")
     try:
         ctx = Context(tier="quick", overlay=overlay)
-        mod.run(ctx, rep)
+        from sa.report import run_rules
+        run_rules(mod, ctx, rep, pid)
         if rep.unmet_floors() and not rep.violations:
             raise AnalysisError("; ".join(rep.unmet_floors()))
         known = {f["key"] for f in load_known().get("findings", [])}
